@@ -207,47 +207,56 @@ def _c07():
           H("c07::c07a_fuzzy_as_int", "every double (totality), |x| <= 1000 for the value laws", covers=("end", "near_integer", "non_integer"), flags=ST),
           H("c07::c07a_number_predicates", "x in [-1,1], y any double: is_zero/is_positive/is_negative partition, min/max/clamp",
             covers=("end", "fuzzy_zero", "nan_clamped"), flags=ST)]
-    return _simple(hs, ["value::number::{fuzzy_equals, fuzzy_less_than, fuzzy_less_than_or_equals, fuzzy_as_int}",
-                        "Number::{is_zero, is_positive, is_negative, min, max, clamp}"],
-                   "windows of +-3e-11 around 8 centres (every double inside), full range for the NaN/inf/totality laws",
-                   "fuzzy_round and modulo (Rust `%` on f64 is mis-modelled by CBMC's fmod), number printing (`{:.10}` float "
-                   "formatting does not finish), literal parsing, sass:math functions (libm), doubles outside the windows, "
-                   "transitivity of fuzzy equality",
-                   stubs=[EPS_STUB], pre=[engine_t.check_epsilon])
+    from . import engine_f
+    d = _simple(hs, ["value::number::{fuzzy_equals, fuzzy_less_than, fuzzy_less_than_or_equals, fuzzy_as_int, fuzzy_round, "
+                     "epsilon, inverse_epsilon, modulo, real_mod}", "Number::{is_zero, is_positive, is_negative, min, max, clamp}"],
+                "Kani: windows of +-3e-11 around 8 centres (every double inside), full range for the NaN/inf/totality laws; "
+                "engine F: fuzzy_round on every double in [0, 2^40); modulo with divisor in +-{1, 3, 360, 0.1, 2.5, 100} or 0 and "
+                "any dividend with |n1| < 2048 |n2|",
+                "number printing (`{:.10}` float formatting does not finish), literal parsing, sass:math functions (libm), "
+                "fuzzy_round of negative numbers (no caller passes one), doubles outside the windows, transitivity of fuzzy equality",
+                stubs=[EPS_STUB, "engine F: C models of floor/ceil/round/trunc/fabs/fma (CBMC built-ins) and an exact long-division "
+                       "model of f64 `%` (CBMC's own fmod is wrong); the MIR->C translation is validated natively against the real "
+                       "functions on ~24k inputs every run"],
+                pre=[engine_t.check_epsilon])
+    d["engines"] = [engine_f.make_engine("C07", [
+        {"name": "c07_fuzzy_round", "inputs": ["x"], "bound": "fuzzy_round (MIR->C) on every double in [0, 2^40)", "timeout": {"quick": 600, "thorough": 1200}},
+        {"name": "c07_modulo", "inputs": ["n1", "n2"], "extra": ["-DMODULO_DIVISORS"], "timeout": {"quick": 900, "thorough": 1800},
+         "bound": "modulo (MIR->C): divisor in +-{1,3,360,0.1,2.5,100} or 0, dividend any double with |n1| < 2048|n2|"},
+    ])]
+    return d
 
 
 def _c09():
     from . import engine_t
     CONV = ("Number::convert -> contract stub: same early returns, asserts the unit pair is in the table dumped from this build, "
             "multiplies by the dumped factor")
-    names = {"num_num": (Q, "two numbers: magnitudes {1, 96, 0, 1.000000000001, 1.5, 144} x units {none, px, in, em}"),
+    MAG = "magnitudes {1, 96, 0, 1.000000000001, 1.5, 144}"
+    names = {"num_none_none": (Q, "two unitless numbers, " + MAG), "num_px_px": (Q, "px vs px, " + MAG),
+             "num_px_in": (Q, "px vs in (convertible), " + MAG), "num_in_px": (Q, "in vs px, " + MAG),
+             "num_px_em": (Q, "px vs em (inconvertible), " + MAG), "num_none_px": (Q, "unitless vs px, " + MAG),
+             "num_px_none": (T, "px vs unitless, " + MAG),
              "str_str": (Q, "two 1-byte strings, quoted or not"), "num_str": (Q, "number vs string"),
              "null_num": (T, "null vs number"), "bool_bool": (Q, "two booleans"),
-             "list_list": (Q, "two one-element lists of numbers, any separator/brackets"),
-             "list_num": (T, "one-element list vs number"), "empty_empty": (Q, "two empty lists, any separator/brackets"),
-             "empty_list": (Q, "empty list vs one-element list"), "strlist_strlist": (T, "two one-element lists of strings"),
-             "strlist_numlist": (T, "list of string vs list of number"), "str_null": (T, "string vs null")}
+             "empty_empty": (Q, "two empty lists, any separator/brackets"),
+             "empty_list": (Q, "empty list vs one-element list"), "str_null": (T, "string vs null")}
     hs = [H("c09::c09a_" + k, b, tiers=t, covers=("end", "unequal"), flags=ST) for k, (t, b) in names.items()]
     return _simple(hs, ["value::Value::{eq, not_equals}", "value::sass_number::SassNumber::eq", "value::number::fuzzy_equals"],
-                   "values of the stated shapes; numbers from 6 magnitudes x 4 units",
-                   "transitivity over fuzzy numbers, colours, maps and map operations (SassMap with symbolic keys did not fit), "
-                   "arglists, index(), duplicate-key check of map literals",
+                   "values of the stated shapes; numbers from 6 magnitudes, unit pairs as listed (concrete per harness)",
+                   "non-empty lists against each other (recursive eq/drop over Vec<Value> did not finish in 20 min), transitivity "
+                   "over fuzzy numbers, colours, maps and map operations, arglists, index(), duplicate-key check of map literals",
                    stubs=[EPS_STUB, CONV], pre=[engine_t.dump_units, engine_t.check_epsilon])
 
 
 def _c03():
-    hs = [H("c03::c03a_scopes_2", "every sequence of 2 operations among {enter scope, exit scope, assign x|y (with/without "
-            "!global, semi-global on/off), loop-variable insert, lookup}, 3 values, depth <= 4", flags=ST),
-          H("c03::c03a_scopes_3", "every sequence of 3 such operations", covers=("end", "depth3", "global_seen_from_inner"), flags=ST),
-          H("c03::c03a_scopes_4", "every sequence of 4 such operations", tiers=T, covers=("end", "depth3", "global_seen_from_inner"), flags=ST),
-          H("c16::c03b_precedence_table", "all pairs of the 14 binary operators")]
-    return _simple(hs, ["evaluate::scope::Scopes::{find_var, get_var, insert_var, insert_var_last, enter_new_scope, exit_scope, "
-                        "var_exists, global_var_exists}", "evaluate::env::Environment::{insert_var, get_var}",
-                        "common::BinaryOp::precedence"],
-                   "operation sequences of length 2-4 over two variable names; no modules, no closures",
-                   "@if/@for/@each/@while execution, argument binding, mixins/@content, closures (new_closure), operator "
-                   "evaluation - they live in Visitor methods that cannot be encoded",
-                   stubs=[RS_STUB, FMT_STUB, "interner -> destructor-free linear-search model (hook)"])
+    hs = [H("c16::c03b_precedence_table", "all pairs of the 14 binary operators", covers=("end", "lower")),
+          H("c16::c16b_paren_rules_minus", "left-operand parenthesisation uses the same precedence table (outer -)",
+            covers=("end", "lhs_unparenthesised"))]
+    return _simple(hs, ["common::BinaryOp::precedence"],
+                   "all ordered pairs of binary operators",
+                   "everything else in the statement: the variable store (Scopes/Environment with its lookup cache was harnessed "
+                   "against a reference state machine but BTreeMap<Identifier, Value> behind Arc<RefCell<..>> did not finish even "
+                   "for one operation: 19 min / 8 GB), @if/@for/@each/@while, argument binding, mixins/@content, operator evaluation")
 
 
 PROPS["C01"] = _c01()
